@@ -45,3 +45,22 @@ Proof.
     unfold jt_bounding_box, with_corners, size_from_bounding_box, Proofs.JoinTriFill.xlo, Proofs.JoinTriFill.xhi, tylo, tyhi in *.
     cbn [tl sz sw sh px py fst snd] in *. lia.
 Qed.
+
+(* ---- the same statements on the MACHINE range: vertices within +-V with V + 14 <= 8191 (range_ok V 1), where every i32
+   operation of the join / is_collapsed / area arithmetic agrees with the unbounded model (C07_join_* / C08 range theorems);
+   tri_big (+-2^29) is the range of the model-level statements only ------------------------------------------------------ *)
+Lemma tri_within_big V t : Proofs.JoinRange.range_ok V 1 -> Proofs.JoinRange.tri_within V t -> tri_big t.
+Proof. intros R [H1 [H2 H3]]. repeat split; eapply Proofs.JoinRange.within_big_V; eassumption. Qed.
+
+Theorem tri_outline_w1_proper_range V t al : Proofs.JoinRange.range_ok V 1 -> Proofs.JoinRange.tri_within V t ->
+  jt_area_doubled t <> 0 ->
+  let '(a, b, c) := jt_sorted_clockwise t in
+  exists px, jt_pixels t 1 al None = Some px /\
+    (forall pc, In pc px -> snd pc = 1) /\
+    (forall p, In p (map fst px) <-> In p (line_points (L b c)) \/ In p (line_points (L c a)) \/ In p (line_points (L a b))).
+Proof. intros R H NZ. exact (tri_outline_w1_proper t al (tri_within_big V t R H) NZ). Qed.
+
+Theorem tri_w1_all_in_bbox_range V t al fill px p : Proofs.JoinRange.range_ok V 1 -> Proofs.JoinRange.tri_within V t ->
+  jt_pixels t 1 al fill = Some px -> In p (map fst px) ->
+  jt_styled_bounding_box t 1 al = Some (jt_bounding_box t) /\ contains (jt_bounding_box t) p = true.
+Proof. intros R H. exact (tri_w1_all_in_bbox t al fill px p (tri_within_big V t R H)). Qed.
